@@ -20,21 +20,32 @@ BOUNDS = dict(quick=dict(grid="NKdiv 2x2x1 / 2x1x1, NKFFT 1", iterations="adpt_n
 EXPLANATION = ("The real run() is driven with a stub data_k_class and a stub calculator whose per-K result r(K) and refinement priorities p(K) are symbolic atoms; "
                "which K-points are refined is decided by forks on the priorities, so every refinement history within the bounds is one path. After every iteration "
                "the result handed to savedata (and the returned one) must equal sum_K factor_K r(K) recomputed from the current K list: a linear identity decided by z3.")
-ASSUMPTIONS = ["priorities positive (the real ones are norms)", "np.argsort(x)[-k:] modelled by k rounds of max selection (ties resolved like the first maximum)",
-               "every factor stays >= 1/512 within the bounds, so run()'s 1e-8 filter on weight changes is never active"]
+ASSUMPTIONS = ["priorities positive (the real ones are norms)", "deep-chain case: a single refinement history (the newest first child is always refined), per-K results symbolic", "np.argsort(x)[-k:] modelled by k rounds of max selection (ties resolved like the first maximum)",
+               "every refined factor stays >= 9e-7 (children >= 3e-8) within the bounds, so run()'s 1e-8 filter on weight changes is never active (below 1e-8 the code ignores the change: outside the claim)"]
 OUTSIDE = ["more iterations / larger grids than stated", "parallel mode (C12)", "the physical content of r(K) (cut at the calculator)"]
 STUBS = ["data_k_class stub", "calculator stub returning symbolic EnergyResult", "np.argsort -> LazyTop in run_grid", "ResultDict.savedata spy (observation point)", "real pickle / np.save files in a temp dir"]
 
 
-def case_run(rec, NKdiv, gens, niter, adpt_fac, adpt_mesh, store, irred=True, nprio=1):
+def case_run(rec, NKdiv, gens, niter, adpt_fac, adpt_mesh, store, irred=True, nprio=1, chain=False):
     D.setup_symbolic()
     reg = D.Registry(nprio)
-    ass = reg.assumptions(80)
+    ass = reg.assumptions(80 if not chain else 200)
+    if chain:
+        # one deep history: the first child created in every iteration has by far the largest priority, all others are <= 1
+        nchild = int(np.prod(adpt_mesh if not isinstance(adpt_mesh, int) else [adpt_mesh] * 3))
+        n0 = int(np.prod(NKdiv))
+        first = [0] + [n0 + nchild * l for l in range(niter)]
+        for i in range(200):
+            p = z3.Real(f"p{i}_0")
+            if i in first:
+                ass.append(p >= 10 ** (4 * (first.index(i) + 1)))
+            else:
+                ass.append(p <= 1)
 
     def body(rec):
         reg.reg.clear()
         reg.evals.clear()
-        rec.witness = lambda env: dict(NKdiv=NKdiv, gens=gens, niter=niter, adpt_fac=adpt_fac, adpt_mesh=adpt_mesh, store=store, irred=irred, nprio=nprio,
+        rec.witness = lambda env: dict(NKdiv=NKdiv, gens=gens, niter=niter, adpt_fac=adpt_fac, adpt_mesh=adpt_mesh, store=store, irred=irred, nprio=nprio, chain=chain,
                                        values=D.registry_values(env, reg))
         obs = D.Observer(reg)
         obs.install()
@@ -73,6 +84,10 @@ def cases(tier, seed):
     out.append(Case("2x1x1 noSym niter=2 mesh=(2,1,1) two criteria", case_run, dict(NKdiv=(2, 1, 1), gens=[], niter=2, adpt_fac=1, adpt_mesh=(2, 1, 1), store={}, nprio=2), timeout=900))
     out.append(Case("2x2x1 C4z niter=1 mesh=3", case_run, dict(NKdiv=(2, 2, 1), gens=["C4z"], niter=1, adpt_fac=1, adpt_mesh=3, store={}), timeout=900))
     out.append(Case("2x2x1 C4z niter=1 full grid (use_irred_kpt=False)", case_run, dict(NKdiv=(2, 2, 1), gens=["C4z"], niter=1, adpt_fac=1, adpt_mesh=2, store={}, irred=False), timeout=900))
+    out.append(Case("3x1x1 noSym niter=1 mesh=2 (non-dyadic weights)", case_run, dict(NKdiv=(3, 1, 1), gens=[], niter=1, adpt_fac=1, adpt_mesh=2, store={}), timeout=900))
+    out.append(Case("2x1x1 noSym niter=2 mesh=3 (non-dyadic weights)", case_run, dict(NKdiv=(2, 1, 1), gens=[], niter=2, adpt_fac=1, adpt_mesh=3, store={}, irred=False), timeout=1500))
+    out.append(Case("2x1x1 noSym niter=5 mesh=3 deep chain (a K-point of weight 9.4e-7 is refined)", case_run,
+                    dict(NKdiv=(2, 1, 1), gens=[], niter=5, adpt_fac=1, adpt_mesh=3, store={}, irred=False, chain=True), timeout=1500))
     out.append(Case("2x2x1 noSym niter=0 discarded", case_run, dict(NKdiv=(2, 2, 1), gens=[], niter=0, adpt_fac=1, adpt_mesh=2, store={}), timeout=600))
     if not q:
         out.append(Case("2x2x2 Inversion niter=2", case_run, dict(NKdiv=(2, 2, 2), gens=["Inversion"], niter=2, adpt_fac=1, adpt_mesh=2, store={}), timeout=3000))
